@@ -7,6 +7,7 @@ import (
 	"encoding/json"
 	"errors"
 	"fmt"
+	"net/http"
 	"net/http/httptest"
 	"net/url"
 	"runtime/debug"
@@ -23,9 +24,19 @@ import (
 	"verif/harness/vkit"
 )
 
-// Case is one authorization response (or error) pushed through one delivery path.
+// ErrSpec describes an error VALUE that lives as long as the provider of a sequence (a sentinel of the storage, a
+// package-level error of the embedding application) and is answered by several steps.
+type ErrSpec struct {
+	Kind    string `json:"kind"` // a standard error code (typed constructor) | plain | json
+	Code    string `json:"code,omitempty"`
+	Desc    string `json:"desc,omitempty"`
+	Wrapped bool   `json:"wrapped,omitempty"` // handed over inside a plain error (fmt.Errorf("storage: %w", e))
+}
+
+// Case is one authorization response (or error) pushed through one delivery path, or (via=seq) a sequence of such
+// responses produced one after the other by ONE provider in one process.
 type Case struct {
-	Via          string   `json:"via"`    // http | url | form | autherror | tryerror
+	Via          string   `json:"via"`    // http | url | form | autherror | tryerror | seq
 	Router       string   `json:"router"` // provider | legacy
 	Mode         string   `json:"mode"`   // "" (absent) | query | fragment | form_post
 	RT           string   `json:"response_type"`
@@ -50,6 +61,15 @@ type Case struct {
 	ErrKind     string `json:"err_kind,omitempty"` // a standard error code (typed constructor) | plain (errors.New) | json (oidc.Error decoded from JSON, arbitrary code)
 	ErrCode     string `json:"err_code,omitempty"` // err_kind=json
 	ErrDesc     string `json:"err_desc,omitempty"`
+
+	// via=seq: 2-5 responses on one long-lived provider; every step is judged with the per-response oracle
+	Steps      []Case    `json:"steps,omitempty"`
+	SharedErrs []ErrSpec `json:"shared_errs,omitempty"`
+
+	// a step of a sequence
+	BrokenWriter bool `json:"broken_writer,omitempty"` // the http.ResponseWriter of this step accepts Accept body bytes and fails from then on (user agent gone)
+	Accept       int  `json:"accept,omitempty"`
+	ErrRef       int  `json:"err_ref,omitempty"` // >0: the error answered is shared_errs[err_ref-1] of the sequence (the same value every time), not a fresh one
 }
 
 // ---- generator ----------------------------------------------------------------------
@@ -61,9 +81,56 @@ var (
 	errCodes  = []string{"invalid_request", "invalid_scope", "unauthorized_client", "server_error", "interaction_required", "login_required", "request_not_supported", "access_denied"}
 )
 
+var (
+	singleVias = []string{"http", "http", "http", "url", "url", "form", "form", "autherror", "tryerror"}
+	stepVias   = []string{"http", "http", "url", "form", "form", "form", "autherror", "autherror", "autherror", "tryerror", "tryerror"}
+)
+
 func genCase(t *rapid.T) Case {
+	if rapid.IntRange(0, 3).Draw(t, "shape") == 0 {
+		return genSeq(t)
+	}
+	return genSingle(t, singleVias)
+}
+
+// genSeq: 2-5 responses of one provider, 0-2 long-lived error values some error steps share, some steps with a
+// ResponseWriter that breaks after Accept bytes.
+func genSeq(t *rapid.T) Case {
+	c := Case{Via: "seq"}
+	c.Router = rapid.SampledFrom([]string{"provider", "legacy"}).Draw(t, "router")
+	nerr := rapid.IntRange(0, 2).Draw(t, "nshared")
+	for i := 0; i < nerr; i++ {
+		sp := ErrSpec{Kind: rapid.SampledFrom(append([]string{"json", "plain"}, errCodes...)).Draw(t, "sharedkind")}
+		if sp.Kind == "json" {
+			sp.Code = genValue(t, "sharedcode")
+		}
+		if rapid.IntRange(0, 7).Draw(t, "sharednodesc") > 0 || sp.Kind == "plain" {
+			sp.Desc = genValue(t, "shareddesc")
+		}
+		sp.Wrapped = rapid.IntRange(0, 3).Draw(t, "sharedwrapped") == 0
+		c.SharedErrs = append(c.SharedErrs, sp)
+	}
+	n := rapid.IntRange(2, 5).Draw(t, "nsteps")
+	for i := 0; i < n; i++ {
+		s := genSingle(t, stepVias)
+		s.Router = c.Router
+		if s.Resp == "error" && nerr > 0 && rapid.IntRange(0, 2).Draw(t, "useshared") > 0 {
+			s.ErrRef = rapid.IntRange(1, nerr).Draw(t, "errref")
+			sp := c.SharedErrs[s.ErrRef-1]
+			s.ErrKind, s.ErrCode, s.ErrDesc = sp.Kind, sp.Code, sp.Desc
+		}
+		if (s.Via == "form" || s.Via == "http" || s.Via == "autherror") && rapid.IntRange(0, 2).Draw(t, "broken") == 0 {
+			s.BrokenWriter = true
+			s.Accept = rapid.IntRange(0, 700).Draw(t, "accept")
+		}
+		c.Steps = append(c.Steps, s)
+	}
+	return c
+}
+
+func genSingle(t *rapid.T, vias []string) Case {
 	var c Case
-	c.Via = rapid.SampledFrom([]string{"http", "http", "http", "url", "url", "form", "form", "autherror", "tryerror"}).Draw(t, "via")
+	c.Via = rapid.SampledFrom(vias).Draw(t, "via")
 	c.Router = rapid.SampledFrom([]string{"provider", "legacy"}).Draw(t, "router")
 	c.Mode = rapid.SampledFrom(modes).Draw(t, "mode")
 	c.RT = rapid.SampledFrom(rts).Draw(t, "rt")
@@ -141,6 +208,25 @@ type judge struct {
 	isError bool
 	sound   bool
 	where   string
+	absent  []string // response parameters the provider did not produce for THIS response: none of them may arrive with a value
+}
+
+// named are the response parameters the statement lists.
+var named = []string{"code", "state", "session_state", "access_token", "id_token", "token_type", "expires_in", "error", "error_description"}
+
+// allBut: every named parameter that is not among wants.
+func allBut(wants []want) []string {
+	var out []string
+	for _, n := range named {
+		has := false
+		for _, w := range wants {
+			has = has || w.name == n
+		}
+		if !has {
+			out = append(out, n)
+		}
+	}
+	return out
 }
 
 func wantChannel(mode, rt string, isError bool) string {
@@ -214,6 +300,16 @@ func (j *judge) values(ch string, got url.Values, wants []want) {
 		}
 		res.Fail("C11:"+ch+":altered:"+w.name, "%s: parameter %s arrives in the %s as %q, expected %q", j.where, w.name, ch, clip(g[0]), clip(w.val))
 	}
+	// nothing but the parameters of this response: a value for a parameter the provider did not produce for it
+	// (the session_state / code / state of another response, an error next to a code) is not "exactly the values the provider produced"
+	for _, n := range j.absent {
+		for _, v := range got[n] {
+			if v != "" {
+				res.Fail("C11:"+ch+":unexpected:"+n, "%s: the %s carries %s=%q although this response has no %s (its parameters: %v; delivered: %v)", j.where, ch, n, clip(v), n, wantNames(wants), keysOf(got))
+				break
+			}
+		}
+	}
 	if len(doubleEsc) > 0 {
 		res.Fail("C11:fragment-double-escaped", "%s: fragment is percent-encoded twice, a user agent that form-decodes the fragment once gets escaped text: %s", j.where, strings.Join(doubleEsc, "; "))
 	}
@@ -228,6 +324,15 @@ func (j *judge) values(ch string, got url.Values, wants []want) {
 			res.Fail("C11:"+ch+":altered:scope", "%s: scope arrives in the %s as %q, expected the single value %q", j.where, ch, g, strings.Join(j.c.Scopes, " "))
 		}
 	}
+}
+
+func wantNames(ws []want) []string {
+	out := make([]string, 0, len(ws))
+	for _, w := range ws {
+		out = append(out, w.name)
+	}
+	sort.Strings(out)
+	return out
 }
 
 func normNL(s string) string {
@@ -337,12 +442,104 @@ type httpOut struct {
 	final   *vkit.Resp // the response that must carry the authorization response
 	stage   string     // authorize | callback
 	code    string     // code handed to the storage (journal)
-	sut     *vkit.SUT
-	agent   *vkit.Agent
 	panicFP string
 }
 
-func runHTTP(c Case, mode string) *httpOut {
+var signKey = vkit.SignKeySpec{KeyName: "ed1", Alg: "EdDSA", KID: "sig1"}
+
+// env is the provider all responses of a case come from: a fresh one per single case, ONE for all steps of a sequence.
+type env struct {
+	st      *vkit.Store
+	sut     *vkit.SUT
+	ag      *vkit.Agent
+	nClient int
+	shared  []sharedErr
+}
+
+type sharedErr struct {
+	val        error
+	code, desc string
+	ok         bool
+}
+
+func newEnv(router string, specs []ErrSpec) *env {
+	st := vkit.NewStore(nil, signKey, vkit.StorePolicy{})
+	sut := vkit.MustBuild(vkit.DefaultProviderSpec(router), st)
+	e := &env{st: st, sut: sut, ag: vkit.NewAgent(sut)}
+	for _, sp := range specs {
+		var se sharedErr
+		se.val, se.code, se.desc, se.ok = buildErrorSpec(sp)
+		e.shared = append(e.shared, se)
+	}
+	return e
+}
+
+// brokenWriter is the ResponseWriter of a user agent that went away: it takes `accept` body bytes and fails from then on.
+type brokenWriter struct {
+	hdr    http.Header
+	status int
+	body   []byte
+	accept int
+	failed bool
+}
+
+func (w *brokenWriter) Header() http.Header { return w.hdr }
+func (w *brokenWriter) WriteHeader(code int) {
+	if w.status == 0 {
+		w.status = code
+	}
+}
+func (w *brokenWriter) Write(p []byte) (int, error) {
+	if w.status == 0 {
+		w.status = 200
+	}
+	if !w.failed && len(p) <= w.accept {
+		w.accept -= len(p)
+		w.body = append(w.body, p...)
+		return len(p), nil
+	}
+	n := 0
+	if !w.failed {
+		n = w.accept
+		w.body = append(w.body, p[:n]...)
+	}
+	w.accept, w.failed = 0, true
+	return n, errors.New("write tcp: broken pipe")
+}
+
+// get issues one GET against the provider; accept >= 0: through a brokenWriter.
+func (e *env) get(path string, q url.Values, accept int) *vkit.Resp {
+	if accept < 0 {
+		return e.ag.Get(path, q, nil)
+	}
+	target := path
+	if len(q) > 0 {
+		target += "?" + q.Encode()
+	}
+	r := httptest.NewRequest("GET", "http://"+e.sut.Host+target, nil)
+	r.Host = e.sut.Host
+	w := &brokenWriter{hdr: http.Header{}, accept: accept}
+	resp := &vkit.Resp{Req: e.st.BeginRequest(), JournalAtWrite: -1}
+	func() {
+		defer func() {
+			if p := recover(); p != nil {
+				resp.Panic = p
+				resp.Stack = string(debug.Stack())
+			}
+		}()
+		e.sut.Handler.ServeHTTP(w, r)
+	}()
+	resp.Status, resp.Header, resp.Body = w.status, w.hdr, w.body
+	if resp.Status == 0 && resp.Panic == nil {
+		resp.Status = 200
+	}
+	resp.JournalAtEnd = e.st.JournalLen()
+	return resp
+}
+
+// runHTTP drives authorize -> login -> callback for a client registered for this run; accept >= 0: every response of
+// the run is written to a brokenWriter.
+func runHTTP(e *env, c Case, mode string, accept int) *httpOut {
 	rtsReg := []string{"code", "id_token", "id_token token"}
 	if c.ErrPath == "unsupported_rt" {
 		rtsReg = nil
@@ -352,13 +549,16 @@ func runHTTP(c Case, mode string) *httpOut {
 			}
 		}
 	}
-	cl := &vkit.ClientSpec{ID: "client-a", AppType: c.AppType, AuthMethod: "none", DevMode: c.URIKind != "https", GrantTypes: []string{vkit.GCode, vkit.GImpl},
+	st := e.st
+	e.nClient++
+	cl := &vkit.ClientSpec{ID: fmt.Sprintf("client-%d", e.nClient), AppType: c.AppType, AuthMethod: "none", DevMode: c.URIKind != "https", GrantTypes: []string{vkit.GCode, vkit.GImpl},
 		ResponseTypes: rtsReg, RedirectURIs: []string{c.URI}, JWTAccessToken: c.JWTAccess}
-	pol := vkit.StorePolicy{SessionState: c.SessionState, PromptNoneLoginError: c.ErrPath == "prompt_none"}
-	st := vkit.NewStore([]*vkit.ClientSpec{cl}, vkit.SignKeySpec{KeyName: "ed1", Alg: "EdDSA", KID: "sig1"}, pol)
-	sut := vkit.MustBuild(vkit.DefaultProviderSpec(c.Router), st)
-	ag := vkit.NewAgent(sut)
-	out := &httpOut{sut: sut, agent: ag}
+	// nothing runs between two requests: registering a client and changing the policy of the storage here is race-free
+	st.Clients[cl.ID] = cl
+	st.Policy.SessionState = c.SessionState
+	st.Policy.PromptNoneLoginError = c.ErrPath == "prompt_none"
+	st.SetFaults()
+	out := &httpOut{}
 
 	q := url.Values{"client_id": {cl.ID}, "redirect_uri": {c.URI}, "response_type": {c.RT}, "scope": {strings.Join(c.Scopes, " ")}, "nonce": {"n-1"}}
 	if c.State != "" {
@@ -375,7 +575,7 @@ func runHTTP(c Case, mode string) *httpOut {
 	case "create_fail":
 		st.SetFaults(vkit.Fault{Method: "CreateAuthRequest", Kind: "error"})
 	}
-	auth := ag.Authorize(q)
+	auth := e.get(e.sut.Paths["authorization"], q, accept)
 	out.final, out.stage = auth, "authorize"
 	if auth.Panic != nil {
 		out.panicFP = auth.PanicFrame()
@@ -394,15 +594,16 @@ func runHTTP(c Case, mode string) *httpOut {
 	case "cb_client_fail":
 		st.SetFaults(vkit.Fault{Method: "GetClientByClientID", Kind: "error"})
 	}
-	cb := ag.Callback(id)
+	cb := e.get(e.sut.CallbackPath(), url.Values{"id": {id}}, accept)
+	st.SetFaults()
 	out.final, out.stage = cb, "callback"
 	if cb.Panic != nil {
 		out.panicFP = cb.PanicFrame()
 		return out
 	}
-	for _, e := range st.CallsOf(cb.Req) {
-		if e.Method == "SaveAuthCode" && len(e.Args) == 2 && !e.Fault {
-			out.code = e.Args[1]
+	for _, je := range st.CallsOf(cb.Req) {
+		if je.Method == "SaveAuthCode" && len(je.Args) == 2 && !je.Fault {
+			out.code = je.Args[1]
 		}
 	}
 	return out
@@ -446,10 +647,20 @@ func verifyIDToken(tok string) string {
 	return ""
 }
 
-func judgeHTTP(res *vkit.Result, c Case) {
-	out := runHTTP(c, c.Mode)
+func judgeHTTP(res *vkit.Result, e *env, c Case) {
+	accept := -1
+	if c.BrokenWriter {
+		accept = c.Accept
+	}
+	out := runHTTP(e, c, c.Mode, accept)
 	if out.panicFP != "" {
 		res.Fail("C11:panic@"+out.panicFP, "panic in %s: %v", out.stage, out.final.Panic)
+		return
+	}
+	if c.BrokenWriter {
+		// the user agent is gone: nothing arrives anywhere, nothing to judge about THIS response
+		res.Grey = true
+		res.Label("grey:aborted-write", "aborted:http:"+out.stage)
 		return
 	}
 	sound, why := soundURI(c.URI)
@@ -466,9 +677,24 @@ func judgeHTTP(res *vkit.Result, c Case) {
 	var wants []want
 	if c.State != "" {
 		wants = append(wants, want{name: "state", val: c.State})
+	} else {
+		j.absent = append(j.absent, "state")
+	}
+	if c.SessionState == "" {
+		// no auth request of this storage has a session state
+		j.absent = append(j.absent, "session_state")
 	}
 	if !isError {
 		res.Label("must-deliver")
+		j.absent = append(j.absent, "error", "error_description")
+		switch c.RT {
+		case "code":
+			j.absent = append(j.absent, "access_token", "id_token")
+		case "id_token":
+			j.absent = append(j.absent, "code", "access_token")
+		default:
+			j.absent = append(j.absent, "code")
+		}
 		if kind != "redirect" && kind != "form" {
 			res.Fail("C11:http:no-delivery", "%s: fault-free request for a registered redirect URI was not answered towards %q: %s", j.where, c.URI, out.final.Describe())
 			return
@@ -528,6 +754,7 @@ func judgeHTTP(res *vkit.Result, c Case) {
 		return
 	}
 	res.Label("error-redirect")
+	j.absent = append(j.absent, "code", "access_token", "id_token")
 	errWant := want{name: "error", verify: func(got string) string {
 		if got == "" {
 			return "empty error code"
@@ -540,7 +767,7 @@ func judgeHTTP(res *vkit.Result, c Case) {
 	// what the provider produced as error / error_description is not predictable from the statement; it is the same
 	// in every response mode, so the query-mode run of the same scenario is the reference (metamorphic)
 	if c.Mode != "query" {
-		ref := runHTTP(c, "query")
+		ref := runHTTP(e, c, "query", -1)
 		if ref.panicFP == "" && delivered(ref.final, c.URI) == "redirect" {
 			l := decodeLocation(ref.final.Location())
 			if l.parseErr == nil && l.queryErr == nil {
@@ -590,29 +817,41 @@ var stdCtor = map[string]func() *oidc.Error{
 
 // buildError returns the error value of the case and the (error, error_description) it stands for.
 func buildError(c Case) (error, string, string, bool) {
-	switch c.ErrKind {
-	case "plain":
-		return errors.New(c.ErrDesc), "server_error", c.ErrDesc, true
-	case "json":
-		b, _ := json.Marshal(map[string]string{"error": c.ErrCode, "error_description": c.ErrDesc})
-		e := new(oidc.Error)
-		if err := json.Unmarshal(b, e); err != nil {
-			return nil, "", "", false
-		}
-		return e, c.ErrCode, c.ErrDesc, c.ErrCode != ""
-	}
-	ctor, ok := stdCtor[c.ErrKind]
-	if !ok {
-		return nil, "", "", false
-	}
-	e := ctor()
-	e.Description = c.ErrDesc
-	return e, c.ErrKind, c.ErrDesc, true
+	return buildErrorSpec(ErrSpec{Kind: c.ErrKind, Code: c.ErrCode, Desc: c.ErrDesc})
 }
 
-func judgeDirect(res *vkit.Result, c Case) {
-	st := vkit.NewStore(nil, vkit.SignKeySpec{KeyName: "ed1", Alg: "EdDSA", KID: "sig1"}, vkit.StorePolicy{})
-	sut := vkit.MustBuild(vkit.DefaultProviderSpec(c.Router), st)
+func buildErrorSpec(sp ErrSpec) (error, string, string, bool) {
+	var oe *oidc.Error
+	code := sp.Kind
+	switch sp.Kind {
+	case "plain":
+		if sp.Wrapped {
+			return fmt.Errorf("storage: %w", errors.New(sp.Desc)), "server_error", "storage: " + sp.Desc, true
+		}
+		return errors.New(sp.Desc), "server_error", sp.Desc, true
+	case "json":
+		b, _ := json.Marshal(map[string]string{"error": sp.Code, "error_description": sp.Desc})
+		oe = new(oidc.Error)
+		if err := json.Unmarshal(b, oe); err != nil || sp.Code == "" {
+			return nil, "", "", false
+		}
+		code = sp.Code
+	default:
+		ctor, ok := stdCtor[sp.Kind]
+		if !ok {
+			return nil, "", "", false
+		}
+		oe = ctor()
+		oe.Description = sp.Desc
+	}
+	if sp.Wrapped {
+		return fmt.Errorf("storage: %w", oe), code, sp.Desc, true
+	}
+	return oe, code, sp.Desc, true
+}
+
+func judgeDirect(res *vkit.Result, e *env, c Case) {
+	sut := e.sut
 	enc := sut.Provider.Encoder()
 	sound, why := soundURI(c.URI)
 	isError := c.Resp == "error"
@@ -666,6 +905,14 @@ func judgeDirect(res *vkit.Result, c Case) {
 		res.Grey = true
 		return
 	}
+	j.absent = allBut(wants)
+
+	// the ResponseWriter of the step
+	rec := httptest.NewRecorder()
+	var w http.ResponseWriter = rec
+	if c.BrokenWriter {
+		w = &brokenWriter{hdr: http.Header{}, accept: c.Accept}
+	}
 
 	switch c.Via {
 	case "url":
@@ -685,8 +932,12 @@ func judgeDirect(res *vkit.Result, c Case) {
 		}
 		j.location(u, wants)
 	case "form":
-		w := httptest.NewRecorder()
 		err := op.AuthResponseFormPost(w, c.URI, response, enc)
+		if c.BrokenWriter {
+			res.Grey = true
+			res.Label("grey:aborted-write", "aborted:form")
+			return
+		}
 		if err != nil {
 			res.Label("form:refused")
 			if sound && !isError {
@@ -700,7 +951,7 @@ func judgeDirect(res *vkit.Result, c Case) {
 			// hostile redirect URI or an error document (the library itself never posts errors): only the markup claims are judged
 			res.Label("markup-only")
 		}
-		j.form(w.Body.Bytes(), wants, sound && !isError)
+		j.form(rec.Body.Bytes(), wants, sound && !isError)
 	case "autherror":
 		if !sound {
 			res.Grey = true
@@ -710,14 +961,18 @@ func judgeDirect(res *vkit.Result, c Case) {
 		if c.SessionState != "" {
 			ar = errReqSS{&errReq{c.URI, c.RT, c.State, c.Mode}, c.SessionState}
 		}
-		w := httptest.NewRecorder()
 		op.AuthRequestError(w, httptest.NewRequest("GET", "/authorize/callback", nil), ar, errVal, sut.Provider)
-		if w.Code < 300 || w.Code > 399 {
-			res.Fail("C11:autherror:not-redirected", "%s: AuthRequestError answered %d %q instead of redirecting to %q", j.where, w.Code, clip(w.Body.String()), c.URI)
+		if c.BrokenWriter {
+			res.Grey = true
+			res.Label("grey:aborted-write", "aborted:autherror")
+			return
+		}
+		if rec.Code < 300 || rec.Code > 399 {
+			res.Fail("C11:autherror:not-redirected", "%s: AuthRequestError answered %d %q instead of redirecting to %q", j.where, rec.Code, clip(rec.Body.String()), c.URI)
 			return
 		}
 		res.Label("must-deliver")
-		j.location(w.Header().Get("Location"), wants)
+		j.location(rec.Header().Get("Location"), wants)
 	case "tryerror":
 		if !sound {
 			res.Grey = true
